@@ -12,11 +12,32 @@ import sys
 import threading
 
 EVENTS = []          # (class name, method name, hit: bool, depth)
+# memoised values are immutable: fingerprint of every mutable value at the
+# moment it is stored, compared at every later hit that returns the same
+# object (id -> (fingerprint, the object itself, so that the id stays taken))
+FINGERPRINTS = {}
+MODIFIED = []        # (class name, method name) of hits whose value changed
 ENABLED = [True]
 _depth = threading.local()
 COUNTS = {"hit": 0, "miss": 0}
 INSTALLED = [False]
 PATCHED = [False]
+
+
+def _fingerprint(r):
+    try:
+        import numpy as np
+        if isinstance(r, np.ndarray):
+            if r.nbytes > (1 << 22) or r.dtype == object:
+                return None
+            return ("a", r.shape, r.dtype.str,
+                    hash(np.ascontiguousarray(r).tobytes()))
+        if isinstance(r, (list, dict)):
+            t = repr(r)
+            return ("r", hash(t)) if len(t) < (1 << 20) else None
+    except Exception:  # noqa
+        return None
+    return None
 
 
 def _patch(module):
@@ -46,6 +67,14 @@ def _patch(module):
                 hit = after.hits > before.hits and \
                     after.misses == before.misses
                 COUNTS["hit" if hit else "miss"] += 1
+                fp = _fingerprint(r)
+                if fp is not None:
+                    known = FINGERPRINTS.get(id(r))
+                    if hit and known is not None and known[1] is r \
+                            and known[0] != fp:
+                        MODIFIED.append((type(self).__name__, f.__name__))
+                    if len(FINGERPRINTS) < 50000:
+                        FINGERPRINTS[id(r)] = (fp, r)
                 if len(EVENTS) < 200000:
                     EVENTS.append((type(self).__name__, f.__name__, hit, d))
                 return r
@@ -106,3 +135,11 @@ def outermost_since(mark_):
 
 def reset():
     del EVENTS[:]
+    FINGERPRINTS.clear()
+    del MODIFIED[:]
+
+
+def forget_values():
+    """Drop the fingerprints (and the references that keep the fingerprinted
+    values alive); called between cases."""
+    FINGERPRINTS.clear()
